@@ -550,3 +550,47 @@ func FuzzC15Environ(f *testing.F) {
 		hx.Eval()
 	})
 }
+
+// ---------------------------------------------------------------------------
+// "over the default": what a Load without an option returns for it is the
+// documented default, whatever earlier Loads in the same process were given
+// (the admin UI and tests load configurations repeatedly)
+
+var pristine = func() string {
+	cfg, err := config.Load([]string{"fabio"}, []string{"PATH=/usr/bin"})
+	return canon(result{cfg: cfg, err: err})
+}()
+
+func TestC15DefaultsSurviveEarlierLoads(t *testing.T) {
+	opts := loadOptions(t)
+	dir := t.TempDir()
+	hx.Check(t, hx.Scale(400, 10000), func(t *rapid.T) {
+		var hist []string
+		for i, n := 0, rapid.IntRange(1, 4).Draw(t, "earlier-loads"); i < n; i++ {
+			inv := &invocation{}
+			for j, m := 0, rapid.IntRange(1, 4).Draw(t, "nopts"); j < m; j++ {
+				o := rapid.SampledFrom(opts).Draw(t, "opt")
+				if rapid.IntRange(0, 2).Draw(t, "listopt") == 0 {
+					// the list-valued options
+					for _, c := range opts {
+						if c.name == rapid.SampledFrom([]string{"metrics.prometheus.buckets", "registry.consul.service.status", "bgp.listenaddresses"}).Draw(t, "listname") {
+							o = c
+						}
+					}
+				}
+				v := genValue(t, o, "v")
+				inv.add(t, o, v, rapid.SampledFrom([]source{srcCmdline, srcEnvFabio, srcEnvPlain, srcFile}).Draw(t, "src"))
+				hist = append(hist, o.name+"="+v)
+			}
+			inv.load(dir)
+			hx.Eval()
+		}
+		cfg, err := config.Load([]string{"fabio"}, []string{"PATH=/usr/bin"})
+		hx.Eval()
+		if got := canon(result{cfg: cfg, err: err}); got != pristine {
+			t.Fatalf("a Load without any option no longer returns the defaults after earlier Loads in this process with %q\ngot:\n%s\nfirst Load of the process:\n%s", hist, hx.Trunc(got, 3000), hx.Trunc(pristine, 3000))
+		}
+		hx.NonTrivial(strings.Join(hist, ","))
+		hx.Class("defaults-after-earlier-loads")
+	})
+}
